@@ -206,10 +206,30 @@ func init() {
 						}
 					}
 				}
+				// large shapes, sparsely (size-threshold fast paths)
+				for C := 1; C <= 3; C++ {
+					for _, P := range []int{9, 33, 130, 1025} {
+						ws := []side{{P, 0, P, 0}, {P, 1, P - 2, 0}, {P, P / 2, P / 3, 0}}
+						if C > 1 {
+							ws = append(ws, side{P, 2, P - 4, 1})
+						}
+						for _, a := range ws {
+							for _, b := range ws {
+								cs := c05Case{S: tn(jb.s), D: tn(jb.d), C: C, SP: a.P, SX: a.X, SL: a.L, SR: a.R, DP: b.P, DX: b.X, DL: b.L, DR: b.R, Rot: rot}
+								rot++
+								n++
+								nt++
+								if fs := c05Run(cs); len(fs) > 0 {
+									c.Fail(cs, fs...)
+								}
+							}
+						}
+					}
+				}
 				c.Eval(n, nt)
 			})
 			c.Sample(c05Case{S: "float64", D: "int16", C: 2, SP: 3, SX: 1, SL: 1, SR: 1, DP: 2, DX: 0, DL: 2, Rot: 5})
-			c.Set("rule", fmt.Sprintf("all 169 instantiations x C in 1..%d x source window x destination window (each: root of P<=%d frames, every start/length, partly filled last frames) with a per-format value alphabet (type bounds, +-1, 0, mid-scale; float sources also +-0, +-0.5, +-1, +-1.5, +-2*MaxFloat32, +-Inf, tiny, large; NaN for float->float) rotated through the positions; oracle: result k equals what the same function gives for source sample k alone in a 1x1 buffer, everything outside the common prefix still holds sentinels, source and all shapes unchanged, return = min per-channel length; float->float bit-identical / nearest float32; non-trivial = both windows non-empty", maxC, maxP))
+			c.Set("rule", fmt.Sprintf("all 169 instantiations x C in 1..%d x source window x destination window (each: root of P<=%d frames, every start/length, partly filled last frames) with a per-format value alphabet (type bounds, +-1, 0, mid-scale; float sources also +-0, +-0.5, +-1, +-1.5, +-2*MaxFloat32, +-Inf, tiny, large; NaN for float->float) rotated through the positions; oracle: result k equals what the same function gives for source sample k alone in a 1x1 buffer, everything outside the common prefix still holds sentinels, source and all shapes unchanged, return = min per-channel length; float->float bit-identical / nearest float32; non-trivial = both windows non-empty; plus a sparse set of large shapes (roots of 9, 33, 130, 1025 frames, 3-4 windows per side) for all 169 instantiations", maxC, maxP))
 			c.Assume("the value-level meaning of each conversion is the subject of C06-C09; here the single-sample result of the same function is the reference")
 		},
 		RunCase: func(c *core.Ctx, raw json.RawMessage) []F { return c05Run(decode[c05Case](raw)) },
